@@ -45,6 +45,15 @@ def known_class(f, binp=None):
         return "indic_zwnj_cluster_split"
     if indic_orphan_sign(cps):
         return "indic_orphan_matra_reordering"
+    if any(lo <= c <= hi for c in cps for lo, hi in INDIC) and binp and e2e.req_field(f["req"], "level") != "0":
+        # the same root cause with other ill-formed sequences (a sign behind a virama, a fourth vowel sign, repeated length
+        # marks ...): what makes the cluster BROKEN is the syllable machine's business, so it is asked - the shaper inserts
+        # a dotted circle exactly for broken clusters (probe font: every character of the text plus U+25CC, no layout tables)
+        rc, out, err = C.run_rbv(binp, ["e2e", "broken-probe", "--req", f["req"]])
+        import re
+        m = re.search(r"broken-probe inserted=(-?\d+)", out)
+        if m and int(m.group(1)) > 0:
+            return "indic_orphan_matra_reordering"
     d = e2e.req_field(f["req"], "dir")
     if d in OPPOSITE and any(lo <= c <= hi for c in cps for lo, hi in REORDERING) and binp:
         # forced against the native direction: the same request in the opposite direction must pass
